@@ -867,6 +867,137 @@ inline ChainResult chain_domain(const StackDesc &d, const ModelField &m, const d
     return res;
 }
 
+// --- lookup coordinate sampling (bottom-up construction, validated by chain_domain)
+inline bool sample_lookup(const StackDesc &d, const ModelField &m, Rng &r, std::vector<double> &x)
+{
+    int top_n = d.layers[0].in_dims;
+    x.assign(top_n, 0);
+    int start;
+    std::vector<double> cur;
+    if (d.shape == SHAPE_NONE) {
+        // constant / identity at the bottom: any moderate coordinate
+        int bottom = d.depth - 1;
+        cur.assign(d.layers[bottom].in_dims, 0);
+        for (auto &v : cur)
+            v = (double)r.range(-32, 32) / 4.0;
+        start = bottom - 1;
+    } else {
+        if (volume(m.ext) == 0)
+            return false;
+        cur.resize(d.N);
+        for (int k = 0; k < d.N; ++k) {
+            size_t e = m.ext[k];
+            cur[k] = r.chance(0.3) ? (r.chance(0.5) ? 0 : (double)(e - 1)) : (double)r.below(e);
+        }
+        start = d.layout_depth - 1;
+    }
+    for (int i = start; i >= 0; --i) {
+        const LayerDesc &l = d.layers[i];
+        const uint8_t *cfg = m.cfg[i].data();
+        size_t ss = scal_size(l.in_scal);
+        switch (l.kind) {
+        case LK_SHUFFLE: {
+            std::vector<double> y(l.in_dims);
+            for (int k = 0; k < l.in_dims; ++k)
+                y[l.perm[k]] = cur[k];
+            cur = y;
+            break;
+        }
+        case LK_CLAMP:
+        case LK_BACKUP:
+            for (int k = 0; k < l.in_dims; ++k)
+                if (r.chance(0.25)) {
+                    double delta = (double)r.range(1, 3) * (r.chance(0.5) ? 1 : -1);
+                    if (scal_is_float(l.in_scal))
+                        delta *= 0.75;
+                    cur[k] += delta;
+                    if (cur[k] < 0 && (l.in_scal == SC_U64 || l.in_scal == SC_U32))
+                        cur[k] = 0;
+                }
+            break;
+        case LK_NN:
+            for (int k = 0; k < l.in_dims; ++k) {
+                double c = cur[k], v;
+                switch (r.below(6)) {
+                case 0:
+                    v = c;
+                    break;
+                case 1:
+                    v = c + 0.25;
+                    break;
+                case 2:
+                    v = c - 0.25;
+                    break;
+                case 3: // one ulp inside the upper half-integer, in the coordinate precision
+                    v = l.in_scal == SC_F32 ? (double)std::nextafterf((float)(c + 0.5), (float)c) : std::nextafter(c + 0.5, c);
+                    break;
+                case 4:
+                    v = l.in_scal == SC_F32 ? (double)std::nextafterf((float)(c - 0.5), (float)c) : std::nextafter(c - 0.5, c);
+                    break;
+                default:
+                    v = c + (r.unit() - 0.5) * 0.98;
+                    v = round_to(l.in_scal, v);
+                    break;
+                }
+                cur[k] = v;
+            }
+            break;
+        case LK_LINEAR:
+            for (int k = 0; k < l.in_dims; ++k) {
+                static const double fr[] = {0, 0, 0.25, 0.5, 0.75, 0.9990234375, 0.125};
+                double f = fr[r.below(7)];
+                if (r.chance(0.15))
+                    f = l.in_scal == SC_F32 ? (double)std::nextafterf(1.0f, 0.0f) : std::nextafter(1.0, 0.0);
+                double c = cur[k];
+                // stay in a cell that has an upper neighbour when possible
+                if (r.chance(0.85) && c >= 1 && r.chance(0.5))
+                    c -= 1;
+                cur[k] = round_to(l.in_scal, c + f);
+            }
+            break;
+        case LK_AFFINE: {
+            int n = l.in_dims;
+            // solve A x + t = cur by Gaussian elimination in double
+            std::vector<std::vector<double>> a(n, std::vector<double>(n + 1));
+            for (int row = 0; row < n; ++row) {
+                for (int col = 0; col < n; ++col)
+                    a[row][col] = get_scal(cfg + (row * (n + 1) + col) * ss, l.in_scal);
+                a[row][n] = cur[row] - get_scal(cfg + (row * (n + 1) + n) * ss, l.in_scal);
+            }
+            for (int col = 0; col < n; ++col) {
+                int piv = -1;
+                for (int row = col; row < n; ++row)
+                    if (a[row][col] != 0 && std::isfinite(a[row][col])) {
+                        piv = row;
+                        break;
+                    }
+                if (piv < 0)
+                    return false;
+                std::swap(a[piv], a[col]);
+                for (int row = 0; row < n; ++row)
+                    if (row != col) {
+                        double f = a[row][col] / a[col][col];
+                        for (int k2 = col; k2 <= n; ++k2)
+                            a[row][k2] -= f * a[col][k2];
+                    }
+            }
+            std::vector<double> y(n);
+            for (int k = 0; k < n; ++k)
+                y[k] = round_to(l.in_scal, a[k][n] / a[k][k]);
+            cur = y;
+            break;
+        }
+        default:
+            break;
+        }
+    }
+    if ((int)cur.size() != top_n)
+        return false;
+    x = cur;
+    return true;
+}
+
+
 // ---------------------------------------------------------------- narrowing oracle (C07)
 // The float nearest to d, ties to even, by comparing distances to the
 // neighbouring floats in extended precision (not by trusting one cast).
